@@ -612,7 +612,12 @@ impl World {
                 w.push_res(t, Res::Ok, None);
                 one(w)
             }
-            Op::DropHandle(side) => {
+            Op::StreamIsTerm(_) => {
+                let b = w.ch.s == 0 && w.ch.queue.is_empty();
+                w.push_res(t, Res::Bool(b), None);
+                one(w)
+            }
+            Op::DropHandle(side) | Op::DropHandleUnwinding(side) => {
                 let list = match side {
                     Side::S => &mut w.th[t].hs,
                     Side::R => &mut w.th[t].hr,
